@@ -50,6 +50,8 @@ impl ResourceClass { pub fn current_resources(&self) -> Option<&ResourceSet> { u
 pub struct CertAuth { pub resources: HashMap<ResourceClassName, ResourceClass> }
 ''')
     U.add('#[verifier::external_type_specification] pub struct ExCertAuth(CertAuth);')
+    U.outside('pub type KrillResult<T> = Result<T, Error>;')
+    U.enum('src/commons/error.rs', 'Error', keep=['KeyUseAttemptReuse'], derive=[])
     U.enum(CH, 'UsedKeyState', derive=[])
     U.struct(CH, 'ChildDetails', derive=[])
     U.add(SPEC)
@@ -78,6 +80,10 @@ pub struct CertAuth { pub resources: HashMap<ResourceClassName, ResourceClass> }
              ]}}),
     ])
     U.impl('impl ChildDetails', [
+        # a child key belongs to one class of the parent for good: a request for a revoked key, or for a key that is in use under
+        # another class, is refused (otherwise one key would have certificates in two classes and F12-style revocations miss one)
+        U.fn(CH, 'ChildDetails', 'verify_key_allowed', requires=[('km', km)], ensures=[
+            ('allowed_iff_new_or_in_use_under_this_class', '''(r is Ok) <==> (!self.used_keys@.contains_key(*ki) || self.used_keys@[*ki] == UsedKeyState::InUse(*parent_rcn))''')]),
         U.fn(CH, 'ChildDetails', 'issued', attrs=['#[verifier::loop_isolation(false)]'], requires=[('km', km)],
              ensures=[
                  ('exactly_the_keys_in_use_under_the_class', '''forall |k: KeyIdentifier| r@.contains(k) <==>
